@@ -180,9 +180,13 @@ fn gen(rng: &mut Rng, opts: &Opts) -> DocD {
     let small = rng.chance(1, 2);
     let ext_attrs = rng.chance(1, 3);
     for y in 0..h {
-        let len = match rng.usize(6) {
+        // row lengths: empty, full, one and two short of full (the writer's line-break rules look at exactly these), very
+        // short, anything
+        let len = match rng.usize(8) {
             0 => 0,
             1 | 2 => w,
+            3 => (w - 1).max(0),
+            4 => (*rng.pick(&[1, 2, w - 2])).clamp(0, w),
             _ => rng.range(0, w as i64) as i32,
         };
         let mut x = 0;
@@ -306,7 +310,7 @@ impl Prop for C04 {
         "C04"
     }
     fn rule(&self) -> &'static str {
-        "single-layer buffers (width 80 without SAUCE, 1..=132 with SAUCE, height 1..=60; CP437 cells incl. NUL/0xFF and, with IcyTerm control handling, control codes; 16 DOS colours plus xterm-256 and RGB palette entries; bold, blink, faint/italic/underline/double underline/crossed out/concealed; rows of every length incl. empty and full width, runs, non-empty last row) are written with Buffer::to_bytes(\"ans\") under every one of the 2^8 boolean option combinations (compress, cursor-forward, repeat, preserve line length, longer terminal, extended colours, SAUCE, lossless) x 3 screen preparations x 3 control-character modes (2304 configurations, cycled) x 3 ice modes, loaded with Buffer::from_bytes and compared cell by cell by what is shown: glyph bitmap, displayed foreground where the glyph has a foreground pixel, displayed background where it has a background pixel, blink where something can blink. Violations are shrunk over options and cells. distinct_nontrivial = distinct (option set, size, ice mode, leading cells)"
+        "single-layer buffers (width 80 without SAUCE, 1..=132 with SAUCE, height 1..=60; CP437 cells incl. NUL/0xFF and, with IcyTerm control handling, control codes; 16 DOS colours plus xterm-256 and RGB palette entries; bold, blink, faint/italic/underline/double underline/crossed out/concealed; rows of every length incl. empty, full width and one / two short of it, runs, non-empty last row) are written with Buffer::to_bytes(\"ans\") under every one of the 2^8 boolean option combinations (compress, cursor-forward, repeat, preserve line length, longer terminal, extended colours, SAUCE, lossless) x 3 screen preparations x 3 control-character modes (2304 configurations, cycled) x 3 ice modes, loaded with Buffer::from_bytes and compared cell by cell by what is shown: glyph bitmap, displayed foreground where the glyph has a foreground pixel, displayed background where it has a background pixel, blink where something can blink. Violations are shrunk over options and cells. distinct_nontrivial = distinct (option set, size, ice mode, leading cells)"
     }
     fn meta(&self, ctx: &Ctx) -> Value {
         json!({"floor_evaluations": 5000, "floor_distinct": ctx.tier.pick(5000u64, 100000u64),
